@@ -10,7 +10,7 @@ Oracle: reference lexer + reference Pratt parser (mc/model).
 """
 import time
 
-from ..core import runner, e1, snapshot
+from ..core import runner, e1, snapshot, clone
 from ..model import refparse, reflex
 from ..spaces import tokens as T, sentences as S
 
@@ -38,7 +38,7 @@ def cached_check(res, v):
     from ..core import real as realmod
     if _cached[0] is None:
         e1.get_real()
-        p = copy.deepcopy(e1._template)
+        p = clone.pristine(e1._template)
         p.parse_cache = {}
         _cached[0] = realmod.Real(p)
     Rc = _cached[0]
@@ -85,9 +85,50 @@ def lexcheck(res, text):
     res.count('lexed')
 
 
+def long_sentences(n):
+    """Sentences the grammar derives whose TREES are n levels deep or n items wide (no bracket nesting needed)."""
+    return [
+        ('add-chain', 'a' + ' + a' * n), ('pow-chain', '2' + ' ** 2' * n), ('pipe-chain', 'a' + ' | f' * n), ('method-chain', 'a' + '.f()' * n),
+        ('not-chain', 'not ' * n + 'a'), ('neg-chain', '- ' * n + 'a'), ('index-chain', 'a' + '[0]' * n), ('cond-chain', 'a if b else ' * n + 'c'),
+        ('lambda-chain', 'x => ' * n + 'x'), ('and-chain', 'a' + ' and a' * n), ('statements', 'a\n' * n), ('args', 'f(' + 'a, ' * n + 'a)'),
+        ('list', '[' + '1, ' * n + '1]'), ('dict', '{' + '"k": 1, ' * n + '"k": 1}'), ('cmp-in-paren', '(' * 20 + 'a < b' + ')' * 20 + ' + a' * n),
+    ]
+
+
+def scale_check(res):
+    """Long derivable sentences: accepted by the plain parser and, identically, by a caching one (miss and hit)."""
+    e1.get_real()
+    api = snapshot.api()
+    for n in (60, 400, 1500):
+        for label, text in long_sentences(n):
+            outs = []
+            for mode in ('plain', 'cache-miss', 'cache-hit'):
+                if mode == 'plain':
+                    p = clone.pristine(e1._template)
+                elif mode == 'cache-miss':
+                    p = clone.pristine(e1._template)
+                    p.parse_cache = {}
+                try:
+                    t = p.parse(text)
+                    outs.append('ok' if t is not None else 'none')
+                except api.ParserError:
+                    outs.append('ParserError')
+                except Exception as e:  # noqa
+                    outs.append(type(e).__name__)
+                res.count('long_sentence_parses')
+            res.outcome(f'scale:{label}:{outs[0]}')
+            if outs != ['ok', 'ok', 'ok']:
+                res.violation(f'long-sentence:{label}:{n}:{"/".join(outs)}', 'a sentence the grammar derives is not accepted (plain parser / '
+                              'caching parser on a miss / on a hit)', {'text': text[:60] + '...', 'label': label, 'n': n,
+                                                                       'expected': 'ok / ok / ok', 'observed': ' / '.join(outs)})
+
+
 def work(task):
     kind = task[0]
     res = runner.Result()
+    if kind == 'scale':
+        scale_check(res)
+        return res
     if kind == 'tok':
         _, alpha_name, prefix, L = task
         alphabet = T.SIGMA_Q if alpha_name == 'Q' else T.SIGMA_FULL
@@ -187,6 +228,7 @@ def main(tier, seed, t0):
     nsk = len(_sentence_skeletons(b['N']))
     step = max(1, nsk // 256)
     tasks += [('sent', b['N'], lo, min(nsk, lo + step), b['MUT']) for lo in range(0, nsk, step)]
+    tasks.append(('scale',))
     tasks = runner.rotate(tasks, seed)
     total = runner.run_tasks(work, tasks)
     total.merge(parent)
@@ -203,10 +245,10 @@ def main(tier, seed, t0):
         'distinct_nontrivial': len(total.outcomes),
         'rule': 'every token string over SIGMA_Q (34 symbols) up to %d tokens and over SIGMA_FULL (55) up to %d, '
                 'explored as a prefix tree pruned only where BOTH parsers are dead; every character string over '
-                'SIGMA_CHAR (26) up to length %d; every statement with <= %d constructor nodes under every subset of '
+                'SIGMA_CHAR (%d) up to length %d; every statement with <= %d constructor nodes under every subset of '
                 'parenthesised operand slots (published and unpublished slice shapes); every one-token substitution, insertion '
                 '(over SIGMA_Q) and deletion in every statement with <= %d nodes. distinct_nontrivial = distinct trees accepted '
-                'by both parsers.' % (b['LQ'], b['LF'], b['M'], b['N'], b['MUT']),
+                'by both parsers.' % (b['LQ'], b['LF'], len(T.SIGMA_CHAR), b['M'], b['N'], b['MUT']),
         'exhaustive': True,
         'bounds': b,
         'sentence_skeletons': nsk,
@@ -219,6 +261,12 @@ def main(tier, seed, t0):
 
 def replay(w):
     from ..core import real
+    if 'label' in w and 'n' in w:
+        res = runner.Result()
+        snapshot.api()
+        scale_check(res)
+        hit = [k for k in res.viol if k.startswith(f"long-sentence:{w['label']}:{w['n']}:")]
+        return ('REPRODUCED' if hit else 'HOLDS') + f"\n long sentence {w['label']} n={w['n']}\n {hit!r}"
     R = real.Real()
     text = w['text']
     r = R.parse(text)
